@@ -104,6 +104,8 @@ class FileHeaderRule(BaseLintRule):  # thailint: ignore[srp]
             return []
 
         config = self._load_config(context)
+        if not config.enabled:
+            return []
 
         if self._should_ignore_file(context, config):
             return []
